@@ -41,8 +41,8 @@ PROPS = {
         "exactly floor(reserve*burned/supply) per asset (after the repair fix: c886314; at most pro-rata, at least pro-rata minus "
         "one unit, any LP amount worth >= 1 unit redeemable) and burns exactly the LP received; LP is minted only by deposits and "
         "burned only by withdrawals (no other message emits a token-factory mint/burn). PARTIAL: the stableswap mint vs. exact "
-        "invariant growth and 'supply never below the locked minimum over all histories' are not theorems (correspondence only; "
-        "stableswap rounding is known finding F-ss-round)."),
+        "invariant growth is not a theorem (correspondence only; stableswap rounding is known finding F-ss-round); the locked "
+        "minimum of stableswap pools is covered by the surplus-never-decreases theorem but its amount is not pinned by a theorem."),
     "C05": P("Props/C05.v", [("farm-scn", 48, 400), ("fault-scn", 24, 250), ("manyfarms-scn", 8, 100), ("probe-scn", 16, 64)],
         "FULL PROOF of the custody invariant over all histories: per-message accounting for every farm-manager message, sender "
         "and funds (obligations' + sent <= obligations + attached funds, per denom), then induction over the chain interpreter "
